@@ -199,6 +199,11 @@ func discoverCatalogues() {
 			try(rs+"."+m+"(%[1]s, %[1]s)", rv.Type()+"."+m+"2")
 		}
 	}
+	// library modules' functions that iterate (json.encode walks lists, dicts,
+	// tuples and structs; an unencodable element ends the walk in mid-iteration)
+	for _, e := range []string{"json.encode(%[1]s)", "json.encode([%[1]s, %[1]s])", "json.encode({\"k\": %[1]s})", "json.encode(struct(f=%[1]s, g=len))", "json.indent(json.encode(%[1]s))", "struct(f=%[1]s) == struct(f=%[1]s)", "str(struct(f=%[1]s))", "%[1]s == %[1]s", "[%[1]s] < [%[1]s]", "repr(%[1]s)", "\"%%s\" %% (%[1]s,)", "\"{}\".format(%[1]s)", "hash((1, 2)) + len(%[1]s)"} {
+		iterTmpls = append(iterTmpls, iterTemplate{Expr: e, Name: "lib"})
+	}
 	// operators that iterate
 	for _, e := range []string{"set([1]) | set(%[1]s)", "set(%[1]s) <= set([1, 2, 3])", "[0] + list(%[1]s)", "%[1]s in [%[1]s]"} {
 		iterTmpls = append(iterTmpls, iterTemplate{Expr: e, Name: "op"})
@@ -424,7 +429,7 @@ func (g *c06gen) newColl() c06coll {
 
 // richColl makes a kept list (or dict) whose elements are kept collections.
 func (g *c06gen) richColl() c06coll {
-	pool := []string{"[1, 2]", "(\"k\", 1)", "[7]", "[1, 2, 3]", "[]", "{\"q\": 1}", "{\"x\": 1, \"y\": 2}", "\"ab\"", "5", "(1, 2, 3)", "[\"p\", \"q\"]"}
+	pool := []string{"[1, 2]", "(\"k\", 1)", "[7]", "[1, 2, 3]", "[]", "{\"q\": 1}", "{\"x\": 1, \"y\": 2}", "\"ab\"", "5", "(1, 2, 3)", "[\"p\", \"q\"]", "len", "{\"f\": len}", "[1, len]", "{1: 2}"}
 	if g.d.Set {
 		pool = append(pool, "set([1, 2])", "set([3])")
 	}
